@@ -28,8 +28,8 @@ pub fn worker_scenario(prop: &str, batch_seed: u64, index: u64) -> (Concrete, J,
     let mut stats = props::Stats::default();
     match prop {
         "C12" => {
-            let p = modgen::generate(seed);
-            (p.concrete.clone(), p.extra_json(), J::Arr(vec![]), "generated-project".into())
+            let (p, c) = c12::build(seed);
+            (c, p.extra_json(), J::Arr(vec![]), "generated-project".into())
         }
         _ => {
             let bias = match prop {
